@@ -18,7 +18,7 @@ pub struct Recombine {
 
 pub fn parts() -> Vec<Box<dyn Part>> {
     let opts = GenOpts { allow_repeat: false, allow_generics: true, enum_into_existing: true, ..GenOpts::default() };
-    vec![Box::new(Valid { opts: opts.clone() }), Box::new(Recombine { opts })]
+    vec![Box::new(Valid { opts: opts.clone() }), Box::new(Recombine { opts }), Box::new(Lattice)]
 }
 
 #[derive(Debug)]
@@ -551,6 +551,39 @@ impl Part for Recombine {
         let (mut item, mut labels) = gen_item(&mut t, &self.opts);
         recombine(&mut t, &mut item, &mut labels);
         judge(self.name(), item.render(), labels, ctx)
+    }
+    fn run_text(&self, text: &str, ctx: &Ctx) -> Option<CaseReport> {
+        Some(judge(self.name(), text.to_string(), vec![], ctx))
+    }
+}
+
+/// The instruction-selection lattice of C16 (`props::c16::gen_lattice`) under this property's oracle: what validation lets through
+/// of it has to expand to well-formed impl items.
+pub struct Lattice;
+
+impl Part for Lattice {
+    fn name(&self) -> &'static str {
+        "lattice"
+    }
+    fn prop(&self) -> &'static str {
+        "C17"
+    }
+    fn rule(&self) -> String {
+        format!("Instruction-selection lattice (the generator of C16's part `lattice`: any trait spelling x any hint x member instructions of related spellings with / without counterpart name and action, child parents of any hint, enum variants with hints); embedded expressions are well-formed and sit in expression positions; the domain is what validation accepts of it.{}", RULE_TAIL)
+    }
+    fn cases(&self, tier: Tier) -> usize {
+        match tier {
+            Tier::Quick => 16_000,
+            Tier::Thorough => 800_000,
+        }
+    }
+    fn max_tape(&self) -> usize {
+        160
+    }
+    fn run_case(&self, tape: &[u16], ctx: &Ctx) -> CaseReport {
+        let mut t = Tape::new(tape);
+        let (text, labels) = crate::props::c16::gen_lattice(&mut t);
+        judge(self.name(), text, labels, ctx)
     }
     fn run_text(&self, text: &str, ctx: &Ctx) -> Option<CaseReport> {
         Some(judge(self.name(), text.to_string(), vec![], ctx))
